@@ -1,20 +1,36 @@
 #!/bin/sh
-# seedcheck.sh <worktree> <property> [budget_s]
-# Confirms a seeded change (existing tests pass, demo fails with / passes
-# without) and runs the property's check against the worktree.
+# seedcheck.sh <seed-dir> <property> [budget_s]
+# Confirms a seeded change in a FRESH worktree built from SEED_PATCH.diff and the
+# demo test (existing tests pass, demo fails with / passes without the change)
+# and runs the property's check against it. The fresh worktree is removed again.
 d=$1; prop=$2; budget=${3:-30}
 . /verif/env.sh
-cd "$d" || exit 2
-[ -f SEED_PATCH.diff ] || { echo "no SEED_PATCH.diff"; exit 2; }
+[ -f "$d/SEED_PATCH.diff" ] || { echo "no SEED_PATCH.diff in $d"; exit 2; }
+ev=/tmp/eval-$(basename "$d")
+git -C /repo worktree remove --force "$ev" 2>/dev/null
+git -C /repo worktree add -q --detach "$ev" HEAD || exit 2
+cd "$ev" || exit 2
+applyp() { git apply "$d/SEED_PATCH.diff" 2>/dev/null || git apply -3 "$d/SEED_PATCH.diff" >/dev/null 2>&1; }
+applyp || { echo "patch does not apply to HEAD (even 3-way)"; cd /; git -C /repo worktree remove --force "$ev"; exit 2; }
+git reset -q
+demo=$(cd "$d" && find . -name 'seed_demo*_test.go' | head -1)
+[ -n "$demo" ] || { echo "no demo test"; }
 pkgs=$(git diff --name-only | grep '\.go$' | grep -v _test.go | xargs -n1 dirname | sort -u | sed 's|^|./|')
-demo=$(git status --porcelain | grep seed_demo_test.go | awk '{print $2}' | head -1)
-demopkg=./$(dirname "$demo")
 echo "== touched: $pkgs ; demo: $demo"
 echo "== existing tests with the change"
 go test -count=1 -vet=off $pkgs 2>&1 | grep -v "TestEthernetHandle_Close" | grep -E "^(ok|FAIL|---|panic)" | head
-echo "== demo with the change (expect FAIL)"
-timeout 120 go test -count=1 -vet=off -run 'Seed|seed|Demo' $demopkg 2>&1 | tail -3
-echo "== demo without the change (expect ok)"
-git stash -q -- $(git diff --name-only) && timeout 120 go test -count=1 -vet=off -run 'Seed|seed|Demo' $demopkg 2>&1 | tail -2; git stash pop -q
-echo "== verif check $prop against the worktree"
-cd /verif && VERIF_REPO="$d" VERIF_BUDGET_S=$budget ./bin/verif check $prop 2>&1 | cut -c1-260 | grep -v "^      /" | head -14
+if [ -n "$demo" ]; then
+  cp "$d/$demo" "$ev/$demo"
+  demopkg=$(dirname "$demo")
+  echo "== demo with the change (expect FAIL)"
+  timeout 300 go test -count=1 -vet=off -run 'Seed|seed|Demo' $demopkg 2>&1 | tail -3
+  echo "== demo without the change (expect ok)"
+  changed=$(git diff --name-only)
+  git diff > /tmp/.seedcur.diff
+  git checkout -- $changed && timeout 300 go test -count=1 -vet=off -run 'Seed|seed|Demo' $demopkg 2>&1 | tail -2
+  git apply /tmp/.seedcur.diff
+  rm -f "$ev/$demo"
+fi
+echo "== verif check $prop against the changed tree"
+cd /verif && VERIF_REPO="$ev" VERIF_BUDGET_S=$budget ./bin/verif check $prop 2>&1 | cut -c1-260 | grep -v "^      /" | head -14
+cd /; git -C /repo worktree remove --force "$ev"; rm -rf /dev/shm/verif-bin-*
